@@ -51,6 +51,15 @@ func runC08(c *Ctx) {
 	nameSig := issue("server sign", 104, kuS, []string{"other.example"}, time.Time{}, time.Time{}, newSM2Key(r))
 	nameEnc := issue("server enc", 105, kuE, []string{"other.example"}, time.Time{}, time.Time{}, newSM2Key(r))
 	expCli := issue("client sign", 106, kuS, nil, fixedNow.Add(-48*time.Hour), fixedNow.Add(-24*time.Hour), newSM2Key(r))
+	// certificates whose DNS SANs name another host while the CommonName is the requested name: with SANs present the
+	// CommonName is not a name the certificate is valid for
+	sanOtherSig := issue(tlsServerName, 107, kuS, []string{"other.example"}, time.Time{}, time.Time{}, newSM2Key(r))
+	sanOtherEnc := issue(tlsServerName, 108, kuE, []string{"other.example"}, time.Time{}, time.Time{}, newSM2Key(r))
+	// an attacker who owns a key and a self-made certificate, and who knows the victim's (public) certificate
+	attKey := newSM2Key(r)
+	_, attDER, _ := issueSM2(certSpec{cn: "client sign", serial: 20, keyUsage: kuS, eku: []gx509.ExtKeyUsage{gx509.ExtKeyUsageClientAuth}}, &attKey.PublicKey, nil, attKey, r)
+	victimThenOwn := gmtls.Certificate{Certificate: [][]byte{pki.cliSigCert.Raw, attDER}, PrivateKey: attKey}
+	ownThenVictim := gmtls.Certificate{Certificate: [][]byte{attDER, pki.cliSigCert.Raw}, PrivateKey: attKey}
 	wrongKey := func(c gmtls.Certificate) gmtls.Certificate {
 		return gmtls.Certificate{Certificate: c.Certificate, PrivateKey: newSM2Key(r)}
 	}
@@ -79,6 +88,8 @@ func runC08(c *Ctx) {
 		add("server-not-yet-valid-sign-cert", []gmtls.Certificate{futSig, pki.enc}, "client")
 		add("server-wrong-name-sign-cert", []gmtls.Certificate{nameSig, pki.enc}, "client")
 		add("server-wrong-name-enc-cert", []gmtls.Certificate{pki.sig, nameEnc}, "client")
+		add("server-san-other-host-cn-requested-sign-cert", []gmtls.Certificate{sanOtherSig, pki.enc}, "client")
+		add("server-san-other-host-cn-requested-enc-cert", []gmtls.Certificate{pki.sig, sanOtherEnc}, "client")
 		add("server-sign-and-enc-swapped", []gmtls.Certificate{pki.enc, pki.sig}, "client")
 		add("server-rsa-certificates", []gmtls.Certificate{pki.rsaCert, pki.rsaCert}, "client")
 		add("server-p256-sign-cert", []gmtls.Certificate{pki.ecCert, pki.enc}, "client")
@@ -87,6 +98,8 @@ func runC08(c *Ctx) {
 		}
 		for _, a := range []gmtls.ClientAuthType{gmtls.VerifyClientCertIfGiven, gmtls.RequireAndVerifyClientCert} {
 			ids = append(ids, idCase{name: "client-cert-untrusted/" + authName(a), srvCerts: []gmtls.Certificate{pki.sig, pki.enc}, cliCerts: []gmtls.Certificate{pki.other.cliSig, pki.other.cliEnc}, auth: a, attacked: "server", suite: su})
+			ids = append(ids, idCase{name: "client-victim-leaf-then-own-cert-signed-with-own-key/" + authName(a), srvCerts: []gmtls.Certificate{pki.sig, pki.enc}, cliCerts: []gmtls.Certificate{victimThenOwn, pki.cliEnc}, auth: a, attacked: "server", suite: su})
+			ids = append(ids, idCase{name: "client-own-cert-then-victim-leaf-signed-with-own-key/" + authName(a), srvCerts: []gmtls.Certificate{pki.sig, pki.enc}, cliCerts: []gmtls.Certificate{ownThenVictim, pki.cliEnc}, auth: a, attacked: "server", suite: su})
 			ids = append(ids, idCase{name: "client-cert-expired/" + authName(a), srvCerts: []gmtls.Certificate{pki.sig, pki.enc}, cliCerts: []gmtls.Certificate{expCli}, auth: a, attacked: "server", suite: su})
 			ids = append(ids, idCase{name: "client-cert-is-a-server-enc-cert-of-other-pki/" + authName(a), srvCerts: []gmtls.Certificate{pki.sig, pki.enc}, cliCerts: []gmtls.Certificate{pki.other.enc}, auth: a, attacked: "server", suite: su})
 		}
@@ -551,6 +564,48 @@ func runC08TLS12(c *Ctx, pki *tlsPKI) {
 		out = handshakePair(ccfg, scfg, nil)
 		c08Judge(rep, "tls12/server-wrong-name", "client", out, map[string]interface{}{"client_error": errStr(out.cli.err)})
 		rep.Eval("tls12/server-wrong-name")
+		// server certificate whose SAN names another host while its CommonName is the requested name
+		{
+			rk, _ := cachedRSA()
+			if _, der, e := issueStd(tlsServerName, 32, true, []string{"other.example"}, &rk.PublicKey, nil, rk, r); e == nil {
+				ccfg, scfg = mk(r)
+				scfg.Certificates = []gmtls.Certificate{{Certificate: [][]byte{der}, PrivateKey: rk}}
+				pool := gx509.NewCertPool()
+				if cc, e := gx509.ParseCertificate(der); e == nil {
+					pool.AddCert(cc)
+				}
+				ccfg.RootCAs = pool
+				out = handshakePair(ccfg, scfg, nil)
+				c08Judge(rep, "tls12/server-san-other-host-cn-requested", "client", out, map[string]interface{}{"client_error": errStr(out.cli.err)})
+				rep.Eval("tls12/server-san-other-host-cn-requested")
+			}
+		}
+		// client authentication on the standard path (SM2 client certificates under the GM root)
+		{
+			attKey := newSM2Key(r)
+			_, attDER, _ := issueSM2(certSpec{cn: "client sign", serial: 20, keyUsage: gx509.KeyUsageDigitalSignature, eku: []gx509.ExtKeyUsage{gx509.ExtKeyUsageClientAuth}}, &attKey.PublicKey, nil, attKey, r)
+			type cc struct {
+				name     string
+				certs    []gmtls.Certificate
+				attacked string
+			}
+			for _, a := range []gmtls.ClientAuthType{gmtls.VerifyClientCertIfGiven, gmtls.RequireAndVerifyClientCert} {
+				for _, k := range []cc{
+					{"client-cert-wrong-key", []gmtls.Certificate{{Certificate: pki.cliSig.Certificate, PrivateKey: newSM2Key(r)}}, "server"},
+					{"client-cert-untrusted", []gmtls.Certificate{pki.other.cliSig}, "server"},
+					{"client-victim-leaf-then-own-cert-signed-with-own-key", []gmtls.Certificate{{Certificate: [][]byte{pki.cliSigCert.Raw, attDER}, PrivateKey: attKey}}, "server"},
+					{"client-own-cert-then-victim-leaf-signed-with-own-key", []gmtls.Certificate{{Certificate: [][]byte{attDER, pki.cliSigCert.Raw}, PrivateKey: attKey}}, "server"},
+					{"client-control", []gmtls.Certificate{pki.cliSig}, "none"},
+				} {
+					ccfg, scfg = mk(r)
+					scfg.ClientAuth, scfg.ClientCAs = a, pki.pool
+					ccfg.Certificates = k.certs
+					out = handshakePair(ccfg, scfg, nil)
+					c08Judge(rep, "tls12/"+k.name+"/"+authName(a), k.attacked, out, map[string]interface{}{"client_error": errStr(out.cli.err), "server_error": errStr(out.srv.err)})
+					rep.Eval("tls12/" + k.name + "/" + authName(a))
+				}
+			}
+		}
 		ccfg, scfg = mk(r)
 		out = handshakePair(ccfg, scfg, nil)
 		c08Judge(rep, "tls12/control", "none", out, map[string]interface{}{"client_error": errStr(out.cli.err), "server_error": errStr(out.srv.err)})
